@@ -17,7 +17,8 @@ for shape in (5, 6, 7):          # redefinition scenarios: direct evaluation onl
             for mode in (0, 2):
                 redef.append([shape, site, order, mode])
 clos = [[shape, site, order, mode] for shape in (10, 11) for site in range(7) for order in (0, 1) for mode in range(5)] + [[12, site, order, mode] for site in range(7) for order in (0, 3, 5) for mode in range(5)]
-closq = [c for c in clos if (c[0] != 12 and c[1] in (0, 2, 5) and c[3] in (0, 1, 2)) or (c[0] == 12 and c[2] == 0 and c[3] in (0, 1, 2))]
+clos += [[13, site, order, mode] for site in (0, 2, 5) for order in (0, 3, 5) for mode in range(5)] + [[14, site, order, mode] for site in range(7) for order in (0, 1) for mode in (0, 4)]
+closq = [c for c in clos if (c[0] != 12 and c[1] in (0, 2, 5) and c[3] in (0, 1, 2)) or (c[0] == 12 and c[2] == 0 and c[3] in (0, 1, 2)) or (c[0] == 13 and c[1] == 0 and c[2] == 0) or (c[0] == 14 and c[1] in (0, 5) and c[2] == 0)]
 glob = [[shape, site, order, mode] for shape in (8, 9) for site in range(7) for order in range(6) for mode in range(5)]
 # quick: every order x {list forms, compiled} for the bare, nested-in-+ and if-test readers; the re-evaluation modes on two orders
 globq = [c for c in glob if (c[1] in (0, 2, 3) and c[3] in (0, 1)) or (c[1] in (0, 1, 2, 4) and c[2] in (0, 3) and c[3] in (2, 3, 4))]
@@ -33,7 +34,7 @@ NOTE = ("Program = top-level forms: defuns of zza/zzb/zzc whose bodies are C01 t
   "for these two shapes the definitions permuted are {defun zzget, defvar/setq, defun zzset} and site selects how zzget refers to the "
   "variable: bare body form, bare after another form, (+ v m), (if v (list v m) m), inside a trace form, let body, body of a lambda "
   "made at call time; 10/11 the callee zzb is defined by a defun INSIDE a let whose variable its body uses (a closure), before or after "
-  "its caller (order), and redefined between two evaluations of the main form inside another let (10) or at top level (11); 12 an applied lambda form ((lambda (a) ..) arg) below a let and referring to the let variable, inside a function called several times with different arguments, site = what surrounds the applied form. site (kind of call site, shapes 0-7): bare body form, argument of +, inside a trace form, branch of if "
+  "its caller (order), and redefined between two evaluations of the main form inside another let (10) or at top level (11); 12 an applied lambda form ((lambda (a) ..) arg) below a let and referring to the let variable, inside a function called several times with different arguments, site = what surrounds the applied form; 13 multiple values in argument positions of ordinary calls (only the primary value reaches the function, at the first and at every later evaluation, compiled or not); 14 a function redefined with another number of required parameters after it was called, later calls follow the new lambda list. site (kind of call site, shapes 0-7): bare body form, argument of +, inside a trace form, branch of if "
   "with a symbolic test, body of let, (funcall (quote f) ..), argument of progn. order: all 6 permutations of the three definitions. "
   "mode: 0 Scope.Eval of each list form in order; 1 slip.Code + Code.Compile() + evaluation of the compiled objects; 2 the forms "
   "after the definitions evaluated 3 times (same list objects, so the in-place rewriting of the first evaluation is in effect); 3 "
